@@ -6,7 +6,8 @@ from . import _txn_sim as TS
 
 ID = "C07"
 LEVEL = "exploration"
-RULE = ("Case = 1-4 transactions over 1-3 partitions (sends from 1-2 concurrent tasks, optional "
+RULE = ("Case = 1-4 transactions over 1-3 partitions (sends from 1-2 concurrent tasks, optionally one more task still "
+        "sending while the transaction is being ended, optional "
         "send_offsets_to_transaction, commit or abort, optionally through the transaction() context) x "
         "retriable faults at any InitProducerId/AddPartitionsToTxn/AddOffsetsToTxn/TxnOffsetCommit/EndTxn/"
         "Produce/FindCoordinator request (error replies, drops before/after apply, lost replies, delays) x "
@@ -244,6 +245,17 @@ def txn_steps(draw, st, nparts, n_txn):
         else:
             steps.append(["begin"])
             steps.extend(body)
+            if draw(st.integers(0, 2)) == 0:
+                # a task that is still sending when the main task ends the transaction
+                sub = [["sleep", draw(st.sampled_from([0.0, 0.0, 0.001, 0.003, 0.01, 0.03]))]]
+                for _ in range(draw(st.integers(1, 3))):
+                    sub.append(["send", draw(st.integers(0, nparts - 1)), draw(st.sampled_from([0, 150, 150])), False])
+                # started before the body (its sends interleave with the body's and may be blocked on a full batch
+                # when the end call is made) or right before the end call
+                if draw(st.booleans()):
+                    steps.insert(len(steps) - len(body), ["straggle", [sub]])
+                else:
+                    steps.append(["straggle", [sub]])
             steps.append([end])
         if draw(st.integers(0, 2)) == 0:
             steps.append(["sleep", draw(st.sampled_from([0.0, 0.01, 0.1]))])
